@@ -525,6 +525,9 @@ func (fg *FG) loopModFamilies(h *ssa.BasicBlock) map[string]bool {
 				for _, f := range fg.addrFamilies(x.Addr) {
 					fams[f] = true
 				}
+				fg.snapshotCellFamilies(x.Val, fams)
+			case *ssa.MakeInterface:
+				fg.snapshotCellFamilies(x.X, fams)
 			case *ssa.MapUpdate:
 				m := types.Unalias(x.Map.Type()).Underlying().(*types.Map)
 				mv, ml := fg.mapFamilies(m)
@@ -797,6 +800,36 @@ func (fg *FG) callFamilies(cc *ssa.CallCommon, fams map[string]bool) {
 		return
 	}
 	fg.contractFamilies(c, callee, cc, fams)
+}
+
+// snapshotCellFamilies: an interior address that is stored to memory or converted to an interface is
+// modelled by a fresh cell / object holding a copy of the pointee - which writes that cell's family.
+func (fg *FG) snapshotCellFamilies(v ssa.Value, fams map[string]bool) {
+	switch v.(type) {
+	case *ssa.FieldAddr, *ssa.IndexAddr:
+	default:
+		return
+	}
+	pt, ok := types.Unalias(v.Type()).Underlying().(*types.Pointer)
+	if !ok {
+		return
+	}
+	fams["$alloc"] = true
+	el := pt.Elem()
+	if s, isS := structOf(el); isS {
+		for i := 0; i < s.NumFields(); i++ {
+			f, srt := fg.fieldFamily(el, s, i)
+			fg.heapSort[f] = srt
+			fams[f] = true
+		}
+		return
+	}
+	if _, isA := types.Unalias(el).Underlying().(*types.Array); isA {
+		return
+	}
+	f, srt := fg.cellFamily(el)
+	fg.heapSort[f] = srt
+	fams[f] = true
 }
 
 // bodyFamilies collects the heap families the body of an (inlined) function may write.
